@@ -32,7 +32,9 @@
 (*             (transitively) in type 1                                     *)
 (*   ident   [decls, sites, leafs, ctors, d2] (see below)                   *)
 (* Work is split in units (one initial state each); the families / rows of  *)
-(* a unit are its successor states and go to one file per unit.             *)
+(* a unit are its successor states and go to one file per unit.  A family   *)
+(* state carries Types!Cached(F): the family plus the table of its selector *)
+(* lookups, computed once from LookupDef (SpecOK re-checks every entry).    *)
 (***************************************************************************)
 EXTENDS Types, Json, CSV, SequencesExt, FiniteSetsExt
 
@@ -203,7 +205,7 @@ Next ==
   /\ UNCHANGED unit
   /\ (IF unit[1] = 0
       THEN ph' = "row" /\ row' \in {r \in DOMAIN ISeq : ISeq[r][1] = unit[2]} /\ UNCHANGED fam
-      ELSE ph' = "fam" /\ fam' \in FamiliesOf(unit[1], unit[2]) /\ UNCHANGED row)
+      ELSE ph' = "fam" /\ fam' \in {Cached(F) : F \in FamiliesOf(unit[1], unit[2])} /\ UNCHANGED row)
 Spec == Init /\ [][Next]_vars
 
 SpecInv ==
